@@ -587,12 +587,15 @@ def _run_vector(desc):
     sh = Shard()
     n = 6
     orig = {"a": np.array([3.0, 1.0, 2.0, 5.0, 4.0, 0.0]), "b": np.array([1.0, 1.0, 0.0, 0.0, 2.0, 2.0]),
-            "v": np.arange(n * 3, dtype=float).reshape(n, 3) + 100.0, "w": (np.arange(n * 2) * 7 % 11).reshape(n, 2).astype(float)}
+            "v": np.arange(n * 3, dtype=float).reshape(n, 3) + 100.0, "w": (np.arange(n * 2) * 7 % 11).reshape(n, 2).astype(float),
+            # a label column with holes: not-a-number / infinite entries (peaks that were never labelled) stay what they are
+            "n": np.array([1.0, np.nan, 3.0, np.inf, 5.0, np.nan])}
 
     def build():
         cf = C.colfile_from_dict({"a": orig["a"].copy(), "b": orig["b"].copy()})
         cf.addcolumn(orig["v"].copy(), "v")
         cf.addcolumn(orig["w"].copy(), "w")
+        cf.addcolumn(orig["n"].copy(), "n")
         return cf
     # (name, precondition on the current number of rows, f(cf, idx) -> (cf, idx))
     def keep(mask_fn):
@@ -605,6 +608,13 @@ def _run_vector(desc):
     def removerows(cf, idx):
         cf.removerows("a", [1.0, 4.0])
         return cf, idx[~np.isin(orig["a"][idx], [1.0, 4.0])]
+
+    def removerows_n(cf, idx):
+        import warnings
+        with warnings.catch_warnings():
+            warnings.simplefilter("ignore")
+            cf.removerows("n", [3])
+        return cf, idx[~(orig["n"][idx] == 3.0)]
 
     def reorder_rev(cf, idx):
         cf.reorder(np.arange(len(idx))[::-1].copy())
@@ -633,7 +643,7 @@ def _run_vector(desc):
         return cf.copyrows(m), idx[m]
     ops = [("filter(a>1)", keep(lambda idx: orig["a"][idx] > 1)), ("filter(every second row)", keep(lambda idx: np.arange(len(idx)) % 2 == 0)),
            ("filter(first third of the rows only)", keep(lambda idx: np.arange(len(idx)) < max(1, len(idx) // 3))),
-           ("filter(all rows)", keep(lambda idx: np.ones(len(idx), bool))), ("removerows(a,[1,4])", removerows), ("reorder(reversed)", reorder_rev),
+           ("filter(all rows)", keep(lambda idx: np.ones(len(idx), bool))), ("removerows(a,[1,4])", removerows), ("removerows(n,[3]) on a column holding nan and inf", removerows_n), ("reorder(reversed)", reorder_rev),
            ("reorder(rotated)", reorder_rot), ("sortby(a)", sortby("a")), ("copy", copy), ("copyrows(list)", copyrows_list), ("copyrows(mask)", copyrows_mask)]
     for d in range(1, depth + 1):
         for hist in itertools.product(range(len(ops)), repeat=d):
@@ -652,9 +662,9 @@ def _run_vector(desc):
                     continue
                 if cf.nrows != len(idx):
                     raise Broken("nrows", {"nrows": cf.nrows, "expected": len(idx)})
-                for t in ("a", "b", "v", "w"):
+                for t in ("a", "b", "v", "w", "n"):
                     got = np.asarray(cf.getcolumn(t), float)
-                    if got.shape != orig[t][idx].shape or not np.array_equal(got, orig[t][idx]):
+                    if got.shape != orig[t][idx].shape or not np.array_equal(got, orig[t][idx], equal_nan=True):
                         raise Broken("column-does-not-hold-the-selected-rows", {"column": t, "shape": list(got.shape), "expected_shape": list(orig[t][idx].shape)})
                     if getattr(cf, t) is not cf.getcolumn(t) and not np.shares_memory(getattr(cf, t), cf.getcolumn(t)):
                         raise Broken("attribute-is-not-the-column", {"column": t})
